@@ -5,7 +5,7 @@ import shutil
 import tempfile
 
 from engine import gen_states, pool_map
-from props.coords_common import segs_of, cigar_for
+from props.coords_common import segs_of, cigar_for, nid
 from readers import gaf_record, line_at, load_pickle, read_text, run_cli, write_text
 
 
@@ -21,15 +21,15 @@ def gfa_text(segs, links):
             ends = ends * 2
         # pick the declaration whose first end is left through: side 1 = '+', side 0 = '-'
         (a, sa), (b, sb) = ends
-        lines.append(f"L\ts{a}\t{'+' if sa == 1 else '-'}\ts{b}\t{'+' if sb == 0 else '-'}\t{l['ov']}M")
+        lines.append(f"L\t{nid(a)}\t{'+' if sa == 1 else '-'}\t{nid(b)}\t{'+' if sb == 0 else '-'}\t{l['ov']}M")
     return "\n".join(lines) + "\n"
 
 
 def make_records(segs, walks, rnd):
     lines = []
     for wi, w in enumerate(sorted(map(lambda w: [tuple(x) for x in w], walks))):
-        plen = sum(segs[f"s{k}"]["ln"] for _, k in w)
-        path = "".join(f"{o}s{k}" for o, k in w)
+        plen = sum(segs[nid(k)]["ln"] for _, k in w)
+        path = "".join(f"{o}{nid(k)}" for o, k in w)
         spans = [(0, plen)]
         if plen >= 3:
             spans.append((1, plen - 1))
